@@ -8,6 +8,7 @@ import (
 	"io"
 	"mime/multipart"
 	"net/url"
+	"regexp"
 	"strings"
 
 	"github.com/johannesboyne/gofakes3"
@@ -523,7 +524,7 @@ func runC09(c *Ctx) {
 	if c.Thorough() {
 		nReq = 40000
 	}
-	c.R.Rule = fmt.Sprintf("%d requests per backend instance drawn from a grammar of the routed surface (methods incl. unknown ones; service/bucket/object paths incl. hostile keys and names; sub-resources uploads, uploadId, partNumber, versioning, versions, versionId, delete, location, list-type, prefix, delimiter, marker, max-keys, continuation-token, start-after, key-marker, version-id-marker, upload-id-marker, max-uploads, max-parts, part-number-marker with absurd numeric and junk values; Range, copy-source, Content-MD5, streaming/decoded-length, conditional, force-delete and oversized metadata headers; empty, random, valid and malformed XML and multipart-form bodies; mismatching Content-Length), issued against stores in the states {empty, objects, versioned with a delete marker and a deleted current version, pending uploads with gaps} with the options {default, host-bucket, auto-bucket, no-versioning}; each answer must be a complete response (no panic, no hang) that is a success or an error whose body is empty or an S3 error document with a code whose table status (re-read from error.go, evaluated by the Lean driver) equals the response status; one request in three comes from a mostly-valid stream (a well-formed operation on the prepared keys, version and pending upload with at most one deviation: rejected and accepted Complete variants, part uploads, aborts, ranged reads, copies, listings); every request is followed by a canary (a part upload and ListParts on the pending upload, every fourth time a whole initiate/part/rejected-complete/complete/GET/DELETE cycle, then PUT/GET/LIST/DELETE on the same and on another bucket); declared lengths are capped at 1 MiB (resource exhaustion is outside the property); non-trivial = distinct request answered with an error", nReq)
+	c.R.Rule = fmt.Sprintf("%d requests per backend instance drawn from a grammar of the routed surface (methods incl. unknown ones; service/bucket/object paths incl. hostile keys and names; sub-resources uploads, uploadId, partNumber, versioning, versions, versionId, delete, location, list-type, prefix, delimiter, marker, max-keys, continuation-token, start-after, key-marker, version-id-marker, upload-id-marker, max-uploads, max-parts, part-number-marker with absurd numeric and junk values; Range, copy-source, Content-MD5, streaming/decoded-length, conditional, force-delete and oversized metadata headers; empty, random, valid and malformed XML and multipart-form bodies; mismatching Content-Length), issued against stores in the states {empty, objects, versioned with a delete marker and a deleted current version, pending uploads with gaps} with the options {default, host-bucket, auto-bucket, no-versioning}; each answer must be a complete response (no panic, no hang) that is a success or an error whose body is empty or an S3 error document with a code whose table status (re-read from error.go, evaluated by the Lean driver) equals the response status; one request in three comes from a mostly-valid stream (a well-formed operation on the prepared keys, version and pending upload with at most one deviation: rejected and accepted Complete variants, part uploads, aborts, ranged reads, copies, listings); every request is followed by a canary (a part upload and ListParts on the pending upload, every fourth time a whole initiate/part/rejected-complete/complete/GET/DELETE cycle, then PUT/GET/LIST/DELETE on the same and on another bucket); at the end of every instance the store is drained through legitimate requests (every version deleted by id, every key deleted, the pending upload aborted) and listed and read once more; declared lengths are capped at 1 MiB (resource exhaustion is outside the property); non-trivial = distinct request answered with an error", nReq)
 	type optSet struct {
 		name string
 		opts []gofakes3.Option
@@ -594,11 +595,98 @@ func runC09(c *Ctx) {
 						c.sample(fmt.Sprintf("%s [%s/%s] %s -> %d %s", kind, os.name, class, desc, resp.Status, resp.ErrCode()))
 					}
 				}
+				// drain: bring the store to the state "everything deleted" through legitimate requests
+				// (every version by id, every key, every pending upload) and look at it once more
+				if !hostMode {
+					if bad := c09Drain(c, inst, st); bad != "" {
+						c.mismatch(Mismatch{Kind: "spec", Backend: kind, Case: append([]string{"options=" + os.name + " state=" + class, "drain: delete every version by id, every key, abort every upload; then list and read"}, history...), Impl: bad,
+							Spec: "the emptied store still answers every request", Finger: "c09:drained:" + class})
+					}
+				}
 				inst.Close()
 			}
 		}
 	}
 	_ = io.EOF
+}
+
+var c09VerRe = regexp.MustCompile(`<Key>([^<]*)</Key><VersionId>([^<]*)</VersionId>`)
+var c09KeyRe = regexp.MustCompile(`<Key>([^<]*)</Key>`)
+
+func c09Drain(c *Ctx, inst *impl.Instance, st c09State) string {
+	b := "/" + impl.EscapePath(st.bucket)
+	answered := func(what string, r impl.Resp) string {
+		c.R.Evaluations++
+		if ok, why := c09Wellformed(c, "", r); !ok {
+			return what + " -> " + why
+		}
+		return ""
+	}
+	seen := map[string]bool{}
+	for round := 0; round < 3; round++ {
+		r := inst.Do(impl.Req{Method: "GET", Path: b, Query: "versions"})
+		if bad := answered("GET ?versions", r); bad != "" {
+			return bad
+		}
+		body := strings.ReplaceAll(strings.ReplaceAll(string(r.Body), "\n", ""), " ", "")
+		ms := c09VerRe.FindAllStringSubmatch(body, -1)
+		if len(ms) == 0 {
+			break
+		}
+		for _, m := range ms {
+			seen[m[1]] = true
+			q := "versionId=" + url.QueryEscape(m[2])
+			if m[2] == "null" || m[2] == "" {
+				q = ""
+			}
+			rr := inst.Do(impl.Req{Method: "DELETE", Path: b + "/" + impl.EscapePath(xmlUnescape(m[1])), Query: q})
+			if bad := answered("DELETE "+m[1]+"?"+q, rr); bad != "" {
+				return bad
+			}
+		}
+	}
+	r := inst.Do(impl.Req{Method: "GET", Path: b})
+	if bad := answered("GET bucket", r); bad != "" {
+		return bad
+	}
+	for _, m := range c09KeyRe.FindAllStringSubmatch(string(r.Body), -1) {
+		seen[m[1]] = true
+		rr := inst.Do(impl.Req{Method: "DELETE", Path: b + "/" + impl.EscapePath(xmlUnescape(m[1]))})
+		if bad := answered("DELETE "+m[1], rr); bad != "" {
+			return bad
+		}
+	}
+	if st.uploadID != "" {
+		rr := inst.Do(impl.Req{Method: "DELETE", Path: b + "/mp/obj", Query: "uploadId=" + st.uploadID})
+		if bad := answered("abort", rr); bad != "" {
+			return bad
+		}
+	}
+	for _, k := range append([]string{"k1", "dir/k2"}, st.keys...) {
+		seen[k] = true
+	}
+	for _, q := range []string{"", "versions", "uploads", "list-type=2", "delimiter=%2F"} {
+		if bad := answered("GET bucket?"+q, inst.Do(impl.Req{Method: "GET", Path: b, Query: q})); bad != "" {
+			return bad
+		}
+	}
+	for k := range seen {
+		p := b + "/" + impl.EscapePath(xmlUnescape(k))
+		if bad := answered("GET "+k, inst.Do(impl.Req{Method: "GET", Path: p})); bad != "" {
+			return bad
+		}
+		if bad := answered("HEAD "+k, inst.Do(impl.Req{Method: "HEAD", Path: p})); bad != "" {
+			return bad
+		}
+	}
+	return ""
+}
+
+func xmlUnescape(s string) string {
+	for _, p := range [][2]string{{"&amp;", "&"}, {"&lt;", "<"}, {"&gt;", ">"}, {"&#34;", "\""}, {"&#39;", "'"}, {"&quot;", "\""}, {"&apos;", "'"}} {
+		s = strings.ReplaceAll(s, p[0], p[1])
+	}
+	return s
 }
 
 // c09Class: a coarse class of the request for fingerprints
